@@ -85,7 +85,19 @@ func runC02(c *fw.Ctx, idx int) fw.Result {
 	L := genomeLen(r, c.Thorough())
 	ref := gen.Genome(r, L)
 	pr := c02Profile(r)
+	if idx%50 == 0 {
+		// a batch of many queries over a longer reference: more than three pipe buffers of output
+		// for the stdout sample below
+		if L < 300 {
+			L = r.Range(300, 600)
+			ref = gen.Genome(r, L)
+		}
+		pr.MaxQueries = 120
+	}
 	sf := gen.MakeSam(r, ref, pr)
+	for tries := 0; idx%50 == 0 && tries < 5 && len(sf.Queries) < 40; tries++ {
+		sf = gen.MakeSam(r, ref, pr)
+	}
 	omitIns := r.Chance(0.25)
 	omitRef := r.Chance(0.25)
 	s, e, wk := window(r, L)
@@ -283,10 +295,14 @@ func runC02(c *fw.Ctx, idx int) fw.Result {
 		}
 		args = boolFlag(args, "skip-insertions", omitIns, idx%30 == 0)
 		args = boolFlag(args, "omit-reference", omitRef, idx%30 == 10)
-		br := fw.RunBin(c.Bin, args, stdin, nil, "", 60*time.Second)
+		// the reader of the pipe is slow: every byte must have been handed over before the exit
+		br := fw.RunBinSlowPipe(c.Bin, args, stdin, nil, "", 60*time.Second)
 		os.RemoveAll(d)
 		res.Evals++
 		res.Count("binary_stdout_runs", 1)
+		if len(br.Stdout) > 12288 {
+			res.Count("binary_stdout_runs_larger_than_3_pipe_buffers", 1)
+		}
 		// stdout must be the concatenation of the per-query files in input order
 		var want strings.Builder
 		for _, q := range sf.Queries {
